@@ -20,9 +20,9 @@ func init() {
 	register(&Prop{
 		ID:    "C05",
 		Level: "exploration",
-		Rule: "case = (configuration {implicit TLS via real crypto/tls, plaintext} x {InsecureAuth} x {greeting OK, PREAUTH, NewSession error} x capability set, sequence of <=30 syntactically valid commands over the full alphabet in UID and non-UID forms issued from whatever state the connection is in, seeded success/failure of every backend method, pipelined bursts), segmentation and schedule. " +
+		Rule: "case = (configuration {implicit TLS via real crypto/tls, plaintext} x {InsecureAuth} x {greeting OK, PREAUTH, NewSession error} x capability set, sequence of <=30 syntactically valid commands over the full alphabet in UID and non-UID forms issued from whatever state the connection is in (IDLE ended by DONE or by another line), seeded success/failure of every backend method, pipelined bursts), segmentation and schedule. " +
 			"Non-trivial: at least one command got a tagged reply. Distinct: distinct event-log hashes.",
-		Components:   "real: imapserver.Conn/Server, internal/imapwire (woven), crypto/tls (un-woven) in the TLS configurations; stub: Session with seeded outcomes, scripted raw peer, executable RFC 9051 state machine as the oracle, network, clock, scheduler",
+		Components:   "real: imapserver.Conn/Server, internal/imapwire (woven), crypto/tls (un-woven) in the TLS configurations; stub: Session with seeded outcomes (it also watches Session.Idle against later session calls), scripted raw peer, executable RFC 9051 state machine as the oracle, network, clock, scheduler",
 		Assumptions:  []string{"a backend call is attributed to the command whose tagged reply is the first one written after the call (valid because a connection handles one command at a time)", "not judged: response texts and codes, whether ENABLE is refused in the selected state, the order of Poll relative to the tagged line"},
 		QuickRuns:    8000,
 		ThoroughRuns: 250000,
@@ -97,6 +97,8 @@ var c05alphabet = []c05cmd{
 	{name: "UID COPY", line: `UID COPY 1 "box"`, states: selState, methods: []string{"Copy"}},
 	{name: "MOVE", line: `MOVE 1 "box"`, states: selState, methods: []string{"Move"}},
 	{name: "UID MOVE", line: `UID MOVE 1 "box"`, states: selState, methods: []string{"Move"}},
+	// IDLE ended by something else than DONE: the command fails, and the backend is told to stop all the same
+	{name: "IDLE", line: "IDLE", states: authStates, methods: []string{"Idle"}, cont: []string{"done with it"}},
 	{name: "FROB", line: "FROB x", states: nil},
 }
 
@@ -227,6 +229,7 @@ func runC05(r *R) {
 		return
 	}
 	r.CheckLiveness(true)
+	judgeIdleLeaks(r, b, "run")
 	for _, p := range env.log.panics() {
 		r.Violate("server-panic", panicLogClass(p), "%s", clipStr(p, 2000))
 	}
@@ -236,6 +239,9 @@ func runC05(r *R) {
 			r.Tracef("backend step=%d %s err=%v", c.Step, c, c.Err)
 		}
 		r.Tracef("server output: %q", clipStr(string(peer.buf), 3000))
+		for _, l := range env.log.all() {
+			r.Tracef("server log: %s", clipStr(l, 300))
+		}
 	}
 }
 
